@@ -107,7 +107,13 @@ pub mod fallback {
     #[inline]
     #[cfg_attr(kani, kani::ensures(|r: &f32| !super::verif_kani::in_i64_range(x) || super::verif_kani::is_floor_of(*r, x)))]
     pub fn floor(x: f32) -> f32 {
-        (x as i64 - x.is_sign_negative() as i64) as f32
+        // Truncate toward zero, then adjust if that rounded up
+        let t = x as i64 as f32;
+        if t > x {
+            t - 1.0
+        } else {
+            t
+        }
     }
     // Returns the least non-negative remainder of `x` (mod `m`).
     #[inline]
